@@ -21,16 +21,17 @@
    loop and a deferred call); with WithListen also the goroutines started by
    Transport.Listen.
 
-   Grain: one action per channel operation / select commitment / Once step,
-   plus a "return" step per operation (so that a recorded call/return history
-   of the real object can be validated: the effect of an operation lies
-   somewhere between its call and its return record).
+   Grain: one action per channel operation / select commitment / Once step.
+   An operation's effect and its return are one step; a recorded call/return
+   history of the real object is validated by letting the effect happen
+   anywhere between the call record and the return record (Listener_Trace).
 
    What the code promises (and this module states):
-   * the queue is a FIFO hand-over: the streams whose queueConn returned nil,
-     in the order of their sends, are exactly the streams returned by Accept so
-     far followed by the queue content (QueueLaw): no stream is returned twice,
-     none is invented, none queued is lost while the listener is open;
+   * the queue is a hand-over without loss, duplication or invention: the
+     streams whose queueConn returned nil are exactly the streams returned by
+     Accept so far plus the queue content, all distinct (QueueLaw, NoDuplicate);
+     the channel is FIFO and is modelled so, but the ORDER is not stated as a
+     property (no caller depends on it);
    * a stream whose queueConn returned the error was never queued and is never
      returned (DroppedStayDropped); queueConn returns the error only after
      Close began (QueueErrOnlyAfterClose);
@@ -65,6 +66,7 @@
      "noclosedcase"  queueConn without the closed case -> parked for ever
      "acceptblind"   Accept without the closed case    -> parked for ever
      "earlyonce"     second Close returns while the first is still closing
+     "peek"          Accept does not take the stream out of the queue
 
    Don't-care regions:
    * which ready case a select takes (both allowed);
@@ -89,7 +91,7 @@ CONSTANTS
 
 ASSUME K \in Nat /\ NStreams \in Nat /\ Cap \in Nat /\ MaxAccepts \in Nat
 ASSUME WithListen \in BOOLEAN /\ AsIs_ErrChan \in BOOLEAN /\ AsIs_BindErr \in BOOLEAN
-ASSUME Mut \in {"none", "noonce", "closequeue", "noclosedcase", "acceptblind", "earlyonce"}
+ASSUME Mut \in {"none", "noonce", "closequeue", "noclosedcase", "acceptblind", "earlyonce", "peek"}
 
 Sessions == 1..K
 Streams  == 1..(K * NStreams)
@@ -109,15 +111,15 @@ VARIABLES
   lpc, lerr, bind,     \* Transport.Listen: pc of the caller, error received, fate of the bind
   srv, errBuf,         \* func1 (ListenAndServe goroutine): pc; buffered errChan content
   asg,                 \* func2 (acceptSessions goroutine): pc
-  sentSeq, gotSeq, dropped,   \* history: streams sent into the queue / returned by Accept / refused
+  sent, got, dropped, dup,    \* history: streams sent into the queue / returned by Accept / refused; a stream was returned twice
   panicked
 
 vars == <<queue, qclosed, closed, once, srvClosed, lnClosed, spc, snext, sres, apc, ares, acount, cpc,
-          lpc, lerr, bind, srv, errBuf, asg, sentSeq, gotSeq, dropped, panicked>>
+          lpc, lerr, bind, srv, errBuf, asg, sent, got, dropped, dup, panicked>>
 
-SPcs == {"idle", "select", "ret", "dead", "panicked"}
-APcs == {"idle", "select", "ret"}
-CPcs == {"idle", "once", "closechan", "srvclose", "lnclose", "closeq", "oncedone", "waitonce", "ret", "done", "panicked"}
+SPcs == {"idle", "select", "dead", "panicked"}
+APcs == {"idle", "select"}
+CPcs == {"idle", "once", "closechan", "srvclose", "lnclose", "closeq", "oncedone", "waitonce", "done", "panicked"}
 LPcs == {"none", "select", "kcp", "ret_ok", "ret_err"}
 
 TypeOK ==
@@ -130,7 +132,7 @@ TypeOK ==
   /\ lpc \in LPcs /\ lerr \in BOOLEAN /\ bind \in {"ok", "fail"}
   /\ srv \in {"none", "starting", "serving", "senderr", "done"} /\ errBuf \in 0..1
   /\ asg \in {"none", "accepting", "done"}
-  /\ sentSeq \in Seq(Streams) /\ gotSeq \in Seq(Streams) /\ dropped \subseteq Streams
+  /\ sent \subseteq Streams /\ got \subseteq Streams /\ dropped \subseteq Streams /\ dup \in BOOLEAN
   /\ panicked \in BOOLEAN
 
 Init ==
@@ -139,7 +141,7 @@ Init ==
   /\ apc = [a \in Acceptors |-> "idle"] /\ ares = [a \in Acceptors |-> 0] /\ acount = [a \in Acceptors |-> 0]
   /\ cpc = [c \in Closers |-> "idle"]
   /\ lpc = "none" /\ lerr = FALSE /\ bind = "ok" /\ srv = "none" /\ errBuf = 0 /\ asg = "none"
-  /\ sentSeq = <<>> /\ gotSeq = <<>> /\ dropped = {}
+  /\ sent = {} /\ got = {} /\ dropped = {} /\ dup = FALSE
   /\ panicked = FALSE
 
 (* the listener exists: Listen has returned it (or it was built directly) *)
@@ -149,7 +151,7 @@ ULife  == UNCHANGED <<lpc, lerr, bind, srv, errBuf, asg>>
 UClose == UNCHANGED <<closed, once, srvClosed, lnClosed, cpc, qclosed>>
 USess  == UNCHANGED <<spc, snext, sres>>
 UAcc   == UNCHANGED <<apc, ares, acount>>
-UHist  == UNCHANGED <<sentSeq, gotSeq, dropped>>
+UHist  == UNCHANGED <<sent, got, dropped, dup>>
 
 -----------------------------------------------------------------------------
 (* Transport.Listen *)
@@ -209,31 +211,26 @@ SStream(k) ==       \* environment: smux delivers the next stream; the goroutine
 
 InHand(k) == Sid(k, snext[k])
 
-SQueueSend(k) ==    \* case l.queue <- conn
+SQueueSend(k) ==    \* case l.queue <- conn: queueConn returns nil; acceptStreams loops
   /\ spc[k] = "select" /\ Len(queue) < Cap /\ ~qclosed
-  /\ queue' = Append(queue, InHand(k)) /\ sentSeq' = Append(sentSeq, InHand(k))
-  /\ sres' = [sres EXCEPT ![k] = "ok"] /\ SSet(k, "ret")
-  /\ UNCHANGED <<snext, gotSeq, dropped, panicked>> /\ UClose /\ UAcc /\ ULife
+  /\ queue' = Append(queue, InHand(k)) /\ sent' = sent \cup {InHand(k)}
+  /\ sres' = [sres EXCEPT ![k] = "ok"] /\ SSet(k, "idle")
+  /\ UNCHANGED <<snext, got, dropped, dup, panicked>> /\ UClose /\ UAcc /\ ULife
 
 SQueuePanic(k) ==   \* what-if "closequeue" only: a send case on a closed channel panics
   /\ spc[k] = "select" /\ qclosed
   /\ panicked' = TRUE /\ SSet(k, "panicked")
   /\ UNCHANGED <<snext, sres, queue>> /\ UClose /\ UAcc /\ UHist /\ ULife
 
-SQueueClosed(k) ==  \* case <-l.closed
+SQueueClosed(k) ==  \* case <-l.closed: queueConn returns the error; acceptStreams ignores it and loops
   /\ Mut # "noclosedcase"
   /\ spc[k] = "select" /\ closed /\ ~qclosed
   /\ dropped' = dropped \cup {InHand(k)}
-  /\ sres' = [sres EXCEPT ![k] = "err"] /\ SSet(k, "ret")
-  /\ UNCHANGED <<snext, queue, sentSeq, gotSeq, panicked>> /\ UClose /\ UAcc /\ ULife
-
-SReturn(k) ==       \* queueConn returns; acceptStreams ignores the result and loops
-  /\ spc[k] = "ret"
-  /\ SSet(k, "idle")
-  /\ UNCHANGED <<snext, sres, queue, panicked>> /\ UClose /\ UAcc /\ UHist /\ ULife
+  /\ sres' = [sres EXCEPT ![k] = "err"] /\ SSet(k, "idle")
+  /\ UNCHANGED <<snext, queue, sent, got, dup, panicked>> /\ UClose /\ UAcc /\ ULife
 
 SessionDies(k) ==   \* environment: AcceptStream fails (session closed / keep-alive timeout)
-  /\ spc[k] = "idle"
+  /\ Ready /\ spc[k] = "idle"
   /\ SSet(k, "dead")
   /\ UNCHANGED <<snext, sres, queue, panicked>> /\ UClose /\ UAcc /\ UHist /\ ULife
 
@@ -249,20 +246,16 @@ ACall(a) ==         \* environment: the application calls Accept
 
 ARecv(a) ==         \* case conn := <-l.queue   (a closed channel still delivers what is buffered)
   /\ apc[a] = "select" /\ Len(queue) > 0
-  /\ ares' = [ares EXCEPT ![a] = Head(queue)] /\ queue' = Tail(queue) /\ gotSeq' = Append(gotSeq, Head(queue))
-  /\ ASet(a, "ret")
-  /\ UNCHANGED <<acount, sentSeq, dropped, panicked>> /\ UClose /\ USess /\ ULife
+  /\ ares' = [ares EXCEPT ![a] = Head(queue)] /\ queue' = (IF Mut = "peek" THEN queue ELSE Tail(queue))
+  /\ got' = got \cup {Head(queue)} /\ dup' = (dup \/ Head(queue) \in got)
+  /\ ASet(a, "idle")
+  /\ UNCHANGED <<acount, sent, dropped, panicked>> /\ UClose /\ USess /\ ULife
 
 AClosed(a) ==       \* case <-l.closed
   /\ Mut # "acceptblind"
   /\ apc[a] = "select" /\ closed
-  /\ ares' = [ares EXCEPT ![a] = ErrClosed] /\ ASet(a, "ret")
+  /\ ares' = [ares EXCEPT ![a] = ErrClosed] /\ ASet(a, "idle")
   /\ UNCHANGED <<acount, queue, panicked>> /\ UClose /\ USess /\ UHist /\ ULife
-
-AReturn(a) ==
-  /\ apc[a] = "ret"
-  /\ ASet(a, "idle")
-  /\ UNCHANGED <<ares, acount, queue, panicked>> /\ UClose /\ USess /\ UHist /\ ULife
 
 -----------------------------------------------------------------------------
 (* Close *)
@@ -279,7 +272,7 @@ COnce(c) ==         \* closeOnce.Do: first caller runs the body, later callers w
   /\ cpc[c] = "once"
   /\ (IF Mut = "noonce" THEN CSet(c, "closechan") /\ once' = once
       ELSE IF once = "fresh" THEN CSet(c, "closechan") /\ once' = "running"
-      ELSE IF once = "done" \/ Mut = "earlyonce" THEN CSet(c, "ret") /\ once' = once
+      ELSE IF once = "done" \/ Mut = "earlyonce" THEN CSet(c, "done") /\ once' = once
       ELSE CSet(c, "waitonce") /\ once' = once)
   /\ UNCHANGED <<closed, srvClosed, lnClosed, qclosed, panicked>> /\ UC
 
@@ -306,16 +299,11 @@ CCloseQueue(c) ==   \* what-if "closequeue" only
 
 COnceDone(c) ==
   /\ cpc[c] = "oncedone"
-  /\ once' = (IF Mut = "noonce" THEN once ELSE "done") /\ CSet(c, "ret")
+  /\ once' = (IF Mut = "noonce" THEN once ELSE "done") /\ CSet(c, "done")
   /\ UNCHANGED <<closed, srvClosed, lnClosed, qclosed, panicked>> /\ UC
 
 CWaitOnce(c) ==
   /\ cpc[c] = "waitonce" /\ once = "done"
-  /\ CSet(c, "ret")
-  /\ UNCHANGED <<closed, once, srvClosed, lnClosed, qclosed, panicked>> /\ UC
-
-CReturn(c) ==
-  /\ cpc[c] = "ret"
   /\ CSet(c, "done")
   /\ UNCHANGED <<closed, once, srvClosed, lnClosed, qclosed, panicked>> /\ UC
 
@@ -325,10 +313,8 @@ SessInner(k)   == SQueueSend(k) \/ SQueuePanic(k) \/ SQueueClosed(k)
 AccInner(a)    == ARecv(a) \/ AClosed(a)
 CloseInner(c)  == COnce(c) \/ CCloseChan(c) \/ CSrvClose(c) \/ CLnClose(c) \/ CCloseQueue(c) \/ COnceDone(c) \/ CWaitOnce(c)
 
-(* steps between the call record and the return record of an operation *)
-InnerCode == LifeCode \/ (\E k \in Sessions : SessInner(k)) \/ (\E a \in Acceptors : AccInner(a)) \/ (\E c \in Closers : CloseInner(c))
-ReturnCode == (\E k \in Sessions : SReturn(k)) \/ (\E a \in Acceptors : AReturn(a)) \/ (\E c \in Closers : CReturn(c))
-CodeNext == InnerCode \/ ReturnCode
+(* steps a goroutine takes by itself once it has been started *)
+CodeNext == LifeCode \/ (\E k \in Sessions : SessInner(k)) \/ (\E a \in Acceptors : AccInner(a)) \/ (\E c \in Closers : CloseInner(c))
 
 EnvNext ==
   \/ (\E b \in {"ok", "fail"} : LStart(b))
@@ -342,27 +328,28 @@ Next == CodeNext \/ EnvNext
 Fairness ==
   /\ WF_vars(SrvBind) /\ WF_vars(SrvStop) /\ WF_vars(SrvSendToSelect) /\ WF_vars(SrvSendBuffered)
   /\ WF_vars(LTimeout) /\ WF_vars(LKcp) /\ WF_vars(AsgStop)
-  /\ \A k \in Sessions : WF_vars(SQueueSend(k)) /\ WF_vars(SQueueClosed(k)) /\ WF_vars(SQueuePanic(k)) /\ WF_vars(SReturn(k))
-  /\ \A a \in Acceptors : WF_vars(ARecv(a)) /\ WF_vars(AClosed(a)) /\ WF_vars(AReturn(a))
+  /\ \A k \in Sessions : WF_vars(SQueueSend(k)) /\ WF_vars(SQueueClosed(k)) /\ WF_vars(SQueuePanic(k))
+  /\ \A a \in Acceptors : WF_vars(ARecv(a)) /\ WF_vars(AClosed(a))
   /\ \A c \in Closers : /\ WF_vars(COnce(c)) /\ WF_vars(CCloseChan(c)) /\ WF_vars(CSrvClose(c)) /\ WF_vars(CLnClose(c))
-                        /\ WF_vars(CCloseQueue(c)) /\ WF_vars(COnceDone(c)) /\ WF_vars(CWaitOnce(c)) /\ WF_vars(CReturn(c))
+                        /\ WF_vars(CCloseQueue(c)) /\ WF_vars(COnceDone(c)) /\ WF_vars(CWaitOnce(c))
 
 Spec == Init /\ [][Next]_vars /\ Fairness
 
-(* Generation grain (gated replay): commands only when every goroutine is at rest. *)
+(* Generation grain (gated replay): commands only when every goroutine is at
+   rest.  SessionDies is not a command: the replay calls queueConn itself, the
+   death of a session means nothing to the listener object. *)
 Quiescent == ~ENABLED CodeNext
 GListen(b)      == Quiescent /\ LStart(b)
 GStream(k)      == Quiescent /\ SStream(k)
-GSessionDies(k) == Quiescent /\ SessionDies(k)
 GAccept(a)      == Quiescent /\ ACall(a)
 GClose(c)       == Quiescent /\ CCall(c)
 GenNext ==
   \/ SrvBind \/ SrvStop \/ SrvSendToSelect \/ SrvSendBuffered \/ LTimeout \/ LKcp \/ AsgStop
-  \/ (\E k \in Sessions : SQueueSend(k) \/ SQueuePanic(k) \/ SQueueClosed(k) \/ SReturn(k))
-  \/ (\E a \in Acceptors : ARecv(a) \/ AClosed(a) \/ AReturn(a))
-  \/ (\E c \in Closers : COnce(c) \/ CCloseChan(c) \/ CSrvClose(c) \/ CLnClose(c) \/ CCloseQueue(c) \/ COnceDone(c) \/ CWaitOnce(c) \/ CReturn(c))
+  \/ (\E k \in Sessions : SQueueSend(k) \/ SQueuePanic(k) \/ SQueueClosed(k))
+  \/ (\E a \in Acceptors : ARecv(a) \/ AClosed(a))
+  \/ (\E c \in Closers : COnce(c) \/ CCloseChan(c) \/ CSrvClose(c) \/ CLnClose(c) \/ CCloseQueue(c) \/ COnceDone(c) \/ CWaitOnce(c))
   \/ (\E b \in {"ok", "fail"} : GListen(b))
-  \/ (\E k \in Sessions : GStream(k) \/ GSessionDies(k))
+  \/ (\E k \in Sessions : GStream(k))
   \/ (\E a \in Acceptors : GAccept(a))
   \/ (\E c \in Closers : GClose(c))
 GenSpec == Init /\ [][GenNext]_vars
@@ -372,18 +359,22 @@ GenSpec == Init /\ [][GenNext]_vars
 
 NoPanic == ~panicked
 
-(* the queue is a FIFO hand-over without loss, duplication or invention *)
-QueueLaw == sentSeq = gotSeq \o queue
-
-NoDuplicate == \A i, j \in 1..Len(gotSeq) : gotSeq[i] = gotSeq[j] => i = j
-
 Range(s) == {s[i] : i \in DOMAIN s}
-DroppedStayDropped == dropped \cap Range(sentSeq) = {}
+
+(* the queue is a hand-over without loss, duplication or invention *)
+QueueLaw ==
+  /\ sent = got \cup Range(queue)
+  /\ got \cap Range(queue) = {}
+  /\ \A i, j \in 1..Len(queue) : queue[i] = queue[j] => i = j
+
+NoDuplicate == ~dup
+
+DroppedStayDropped == dropped \cap sent = {}
 
 QueueErrOnlyAfterClose  == \A k \in Sessions : sres[k] = "err" => closed
 AcceptErrOnlyAfterClose == \A a \in Acceptors : ares[a] = ErrClosed => closed
 
-CloseReturned == \E c \in Closers : cpc[c] \in {"ret", "done"}
+CloseReturned == \E c \in Closers : cpc[c] = "done"
 CloseMeansClosed == CloseReturned => (closed /\ srvClosed /\ lnClosed)
 
 QueueNeverClosed == Mut = "none" => ~qclosed
